@@ -12,3 +12,5 @@ pub mod reasoning;
 pub mod parser_n3_logic;
 pub mod reasoning_experimental;
 pub mod cross_window_sds;
+#[cfg(kolibrie_verif)]
+pub mod verif;
